@@ -746,6 +746,13 @@ def _real_fault(kind, path):
     fs = _fs()
     if fs is not None and fs.plan is not None:
         fs._fault('real.' + kind, path)
+    if fs is not None and getattr(fs.sim, 'real_yield', False):
+        # blobs-and-threads worlds: every operation on the real scratch
+        # directory is a pre-emption point (the path is not logged: it
+        # holds the process id)
+        sc = fs.sim.sched
+        if sc is not None:
+            sc.yield_point('real.' + kind, None)
 
 
 def sim_open(path, mode='r', buffering=-1, encoding=None, errors=None,
@@ -844,7 +851,28 @@ class OsProxy:
         if fs is not None and is_sim(path):
             return fs.makedirs(path, mode, exist_ok)
         _real_fault('makedirs', path)
+        if fs is not None and getattr(fs.sim, 'real_yield', False):
+            return self._makedirs_by_level(path, mode, exist_ok)
         return _os.makedirs(path, mode, exist_ok)
+
+    def _makedirs_by_level(self, path, mode, exist_ok):
+        """os.makedirs as the library does it -- look at the parent, then
+        create the leaf -- with a pre-emption point between the two (the
+        call is not atomic on a real system either)."""
+        head, tail = _os.path.split(path)
+        if not tail:
+            head, tail = _os.path.split(head)
+        if head and tail and not _os.path.exists(head):
+            try:
+                self._makedirs_by_level(head, mode, exist_ok)
+            except FileExistsError:
+                pass
+        _real_fault('mkdir', path)
+        try:
+            _os.mkdir(path, mode)
+        except OSError:
+            if not exist_ok or not _os.path.isdir(path):
+                raise
 
     def rmdir(self, path):
         fs = _fs()
